@@ -27,7 +27,7 @@ import (
 //
 //	frame: (h sid end ((#name #value) ...) pieces)   HEADERS split into `pieces`+1 frames (CONTINUATION)
 //	       (d sid end #payload) | (dz sid end length fill)     DATA (dz: `length` bytes of `fill`)
-//	       (o kind sid)                                         settings | ping | window | priority | rst | goaway | table0 | table64 | settings-misc
+//	       (o kind sid)                                         settings | ping | window | priority | rst | goaway | table0 | table64 | settings-misc | tableup8k | tableup64k
 //
 // observation: ((items ((req #method (hdr ...) datalen #first64) (resp status (hdr ...) datalen #first64) variant) ...) (left q r))
 func init() {
@@ -101,6 +101,15 @@ func encH2Half(isClient bool, frames sx.Sx) []byte {
 				fr.WriteSettings(http2.Setting{ID: http2.SettingHeaderTableSize, Val: 64})
 			case "settings-misc":
 				fr.WriteSettings(http2.Setting{ID: http2.SettingMaxConcurrentStreams, Val: 7}, http2.Setting{ID: http2.SettingInitialWindowSize, Val: 1 << 20})
+			case "tableup8k", "tableup64k":
+				// the peer (the other half, which this dissection does not see) announced a larger header table: this
+				// half's encoder takes it into use and says so with a dynamic table size update in its next block
+				size := uint32(8192)
+				if f.List[1].Atom == "tableup64k" {
+					size = 65536
+				}
+				enc.SetMaxDynamicTableSizeLimit(size)
+				enc.SetMaxDynamicTableSize(size)
 			}
 		}
 	}
@@ -328,7 +337,7 @@ func genHttp2Conv(r *Rand, tier string, emit func(sx.Sx)) {
 					out = append(out, sx.L(sx.A("o"), sx.A("rst"), sx.N(2*s+1)))
 				}
 				if r.Chance(15) {
-					kinds := []string{"settings", "ping", "window", "priority", "rst", "goaway", "table0", "table64", "settings-misc"}
+					kinds := []string{"settings", "ping", "window", "priority", "rst", "goaway", "table0", "table64", "settings-misc", "tableup8k", "tableup64k"}
 					k := kinds[r.Intn(len(kinds))]
 					sid := 0
 					if k == "window" && r.Bool() || k == "priority" {
@@ -410,7 +419,7 @@ func genHttp2Raw(r *Rand, tier string, emit func(sx.Sx)) {
 				case 4:
 					fs = append(fs, sx.L(sx.A("h"), sx.N(sid), sx.Bool(end), sx.L(kv("x-trailer", "t"), kv("grpc-status", "0")), sx.N(0)))
 				case 5:
-					fs = append(fs, sx.L(sx.A("o"), sx.A([]string{"settings", "ping", "window", "priority", "rst", "goaway", "table0", "table64", "settings-misc"}[r.Intn(9)]), sx.N(sid)))
+					fs = append(fs, sx.L(sx.A("o"), sx.A([]string{"settings", "ping", "window", "priority", "rst", "goaway", "table0", "table64", "settings-misc", "tableup8k", "tableup64k"}[r.Intn(11)]), sx.N(sid)))
 				}
 			}
 			return fs
